@@ -1,4 +1,4 @@
-"""src/util.rs `reshape_string` (which part of a too-wide line is shown: the shift handed to the line printer), TRANSLATED statement by
+"""src/util.rs `accumulate_text_width` (initial width, loop body) and `reshape_string` (which part of a too-wide line is shown: the shift handed to the line printer), TRANSLATED statement by
 statement (tools/extractors/_rustfn.py).  `acc_width[i]` becomes `accAt acc i` (0 outside the vector), `usize` subtraction becomes
 truncated subtraction; Props/ReshapeFnsTables.lean proves that wherever the hand-written models (`Positions.reshapeString`, C08, and
 `LinePrinter.reshapeString`, C11) say "no panic, result r", the translated function returns r — and the models' no-panic theorems
@@ -33,7 +33,26 @@ def extract(repo):
            "    `accumulate_text_width(text, tabstop)`, `len = acc.len()`, `textEmpty = text.is_empty()` -/",
            "def reshape (textEmpty : Bool) (acc : List Nat) (len container_width match_start match_end : Nat) : Nat × Nat :=",
            "\n".join("  " + l for l in e[0].split("\n")), "",
-           "end SkimModel.Generated.ReshapeFns", ""]
+           ]
+    # accumulate_text_width: `let mut ret = Vec::new(); let mut w = W0; for ch in text.chars() { BODY; ret.push(w); } ret`
+    b = re.sub(r"\s+", " ", re.sub(r"//[^\n]*", "", R.fn_body(src, "accumulate_text_width")[0])).strip()
+    m = re.fullmatch(r"let mut ret = Vec::new\(\); let mut w = (\d+); for ch in text\.chars\(\) \{ (.*) ret\.push\(w\); \} ret", b)
+    if not m:
+        raise R.Unsupported("accumulate_text_width: not `ret = []; w = k; for ch in text.chars() { ..; ret.push(w); } ret`")
+    step = m.group(2)
+    for text, name in (("ch == '\\t'", "isTab"), ("ch.width().unwrap_or(2)", "chw")):
+        if step.count(text) != 1:
+            raise R.Unsupported("accumulate_text_width: `%s` not found exactly once in the loop body" % text)
+        step = step.replace(text, name)
+    if "ch" in re.findall(r"[A-Za-z_]+", step):
+        raise R.Unsupported("accumulate_text_width: the loop body uses `ch` in another way")
+    e2 = R.translate(step, {}, result="w", locals_={"w": "Nat", "tabstop": "Nat", "isTab": "Bool", "chw": "Nat"})
+    out += ["/-- `let mut w = k` of `accumulate_text_width` -/", "def accInit : Nat := %s" % m.group(1), "",
+            "/-- the body of its `for ch in text.chars()` loop up to `ret.push(w)`: the new `w` (`isTab` = `ch == '\\t'`, `chw` =",
+            "    `ch.width().unwrap_or(2)`) -/",
+            "def accStep (tabstop w : Nat) (isTab : Bool) (chw : Nat) : Nat :=",
+            "\n".join("  " + l for l in e2[0].split("\n")), "",
+            "end SkimModel.Generated.ReshapeFns", ""]
     return "\n".join(out)
 
 
